@@ -18,7 +18,8 @@ ASSUMPTIONS = ["networkx.dag_longest_path is library code: it is trusted only th
                "the node order handed to the dynamic programme (networkx's topological order) is an unchecked hint; a wrong hint makes the potential check fail"]
 CHECKS = ["the computed potential is valid on every edge (certificate)", "the reported node list is a non-empty path of graph edges",
           "the path's weight equals the maximum over all paths (largest potential)", "critical_path_edges_set = the edges of that path",
-          "critical_path_events_set = the events of the path's nodes", "the path's weight does not exceed the makespan of the analysed window"]
+          "critical_path_events_set = the events of the path's nodes", "the path's weight does not exceed the makespan of the analysed window",
+          "no edge weighs more than the time difference of its end points (hypothesis of C09_makespan_guaranteed: then NO path of the graph can exceed the makespan)"]
 
 
 def gen_cases(seed, tier, n):
@@ -101,8 +102,8 @@ def compare(case, impl, model):
         if k > 0 and not s.get("ok", True):
             disc.append(f"{which}: critical_path() returned False")
         for j, (ok, what) in enumerate(zip(m, CHECKS)):
-            if k > 0 and j == 5:
-                continue
+            if k > 0 and j in (5, 6) and not s.get("restored"):
+                continue        # a re-weighted copy is not bound by the measured time stamps
             if not ok:
                 disc.append(f"{which}: {what} -- rejected by check_C09; reported path {s['cp_nodes'][:12]} {w}")
         if len(m) == 1 and not m[0]:
@@ -119,7 +120,8 @@ def classify(case, impl, model, disc):
 
 
 LEVEL_TEXT = ("Proof: Dag.path_bound / optimum_bound (a potential function valid on every edge bounds the weight of EVERY path, no bound on the graph's size), "
-              "C09_check_sound (a node list accepted by check_C09 is a path of the graph and no path weighs more), C09_le_makespan, C08_acyclic. For every graph the "
+              "C09_check_sound (a node list accepted by check_C09 is a path of the graph and no path weighs more), C09_le_makespan, C09_makespan_guaranteed (on a graph "
+              "accepted by span_okb no path at all exceeds the makespan), C08_acyclic. For every graph the "
               "analysis builds, and for re-weighted copies, the potential is computed (dynamic programme) and checked in Coq, and the reported path, edge set and event "
               "set are judged by the verified checker.")
 LEVEL_NOTE = ("networkx is trusted only through the checked result: whichever of several maximum-weight paths it returns is accepted. The graph itself comes from the "
